@@ -171,7 +171,7 @@ Section Model.
   }.
 
   Definition pubkey (e : env) (i : Z) : option key :=
-    if (i <? 0)%Z then None else nth_error (e_keys e) (Z.to_nat i).
+    if ((i <? 0) || (Z.of_nat (length (e_keys e)) <=? i))%Z then None else nth_error (e_keys e) (Z.to_nat i).
 
   Definition nodes (e : env) : nat := length (e_keys e).
 
